@@ -6,15 +6,47 @@ Full statement (`classify`, kept visible, not proved in full):
     ∀ ls : List Lexeme, Chain canFollow ls →
       (tokenize Gen.tables ⟨false, true⟩ (ls.flatMap render)).toks.map (typ, val) = ls.map expected
 
-What is proved here is the per-lexeme "first token" statement for a fragment of the lexeme grammar
-(`classify_partial`: whitespace runs, the fast-path and solo delimiters, the five attribute-match
-operators, CDO) for **every** continuation text, plus one universal statement for all lexemes
-(`first_char_sound`: whatever token is produced comes from a production that can start with the
-first character).  The remaining lexeme classes (names with escapes, numbers, strings, URIs,
-unicode-ranges, comments, CDC) are decided by the derivation oracle + correspondence in
-harness/props/c09.py and are listed there under `partial_theorems`.
+What is proved here is the per-lexeme "first token" statement — for a lexeme of ANY length, in ANY
+tokenizer state outside full-sheet mode, followed by ANY continuation text that satisfies the stated
+"cannot merge" side condition, `step` returns exactly one token with that type, that value and that raw
+text — for the following lexeme classes:
+
+  * S            whitespace runs                                            `classify_ws`
+  * CHAR         the fast-path characters `,:;{}>[]` and the solo delimiters  `classify_fast`, `classify_solo`,
+                                                                            `gen_solo_delims`
+  * INCLUDES, DASHMATCH, PREFIXMATCH, SUFFIXMATCH, SUBSTRINGMATCH, CDO, CDC
+                 fixed spellings, any continuation                          `classify_includes` … `classify_cdo`,
+                                                                            `classify_cdc`
+  * NUMBER       `[+-]?[0-9]+` and `[+-]?[0-9]*\.[0-9]+`                     `classify_number`, `classify_number_signed`
+  * PERCENTAGE   number `%`, any continuation                               `classify_percentage(_signed)`
+  * DIMENSION    number + escape-free unit `-?{nmstart}{nmchar}*`            `classify_dimension(_signed)`
+  * IDENT        escape-free `-?{nmstart}{nmchar}*` (ASCII and non-ASCII)    `classify_ident`
+  * FUNCTION     escape-free identifier `(`, except `url(` and `and(`        `classify_function`
+  * HASH         `#` + escape-free name characters                          `classify_hash`
+  * ATKEYWORD and the keyword symbols (IMPORT_SYM, MEDIA_SYM, …)
+                 `@` + escape-free identifier, except `@charset␠`           `classify_atkeyword`
+  * COMMENT      `/*` body-without-`*/` `*/`, any continuation               `classify_comment(_plain)`
+  * STRING       quote, body without newline/backslash/that quote, quote    `classify_string`
+
+plus one universal statement for all lexemes (`first_char_sound`: whatever token is produced comes from
+a production that can start with the first character).
+
+Every theorem about a production rests on an *obligation on the regenerated table* (`gen_S_first`,
+`gen_number_layout`, `gen_ident_layout`, `gen_hash_at`, `gen_cdc_layout`, `gen_signed_layout`,
+`gen_comment`, `gen_string`, …): it states the shape and position of the productions involved and is
+re-checked by `rfl`/`decide` whenever `Gen/Productions.lean` is regenerated.  The side conditions of the
+theorems are exact enough to have kernel-checked counterexamples next to them (`1/2)` is a RATIO,
+`1.5`, `1e3`, `u+1` is a UNICODE-RANGE, `and(` stays an IDENT, `url()` is a URI, `@charset␠` is
+CHARSET_SYM, the value of a COMMENT goes through the `\hex` rewrite).
+
+NOT proved here (decided by the derivation oracle + correspondence in harness/props/c09.py, listed
+there under `partial_theorems`): names, units, hashes and at-keywords *with escapes*; strings with
+escapes or line continuations and INVALID (unterminated strings); URI; UNICODE-RANGE; RATIO as a lexeme;
+full-sheet mode (`fullsheet = true`: the EOF completions); and the composition of the per-lexeme
+statements into the list statement `classify` above.
 -/
 import CssVerif.Proofs.Classify
+import CssVerif.Proofs.ClassifyMore
 import CssVerif.Gen.Productions
 namespace CssVerif.C09
 open CssVerif Re
@@ -216,5 +248,917 @@ theorem special_types :
 example : step Gen.tables ⟨false, true⟩ ⟨none, [32, 10, 97], 1, 1⟩ =
     some { emit := some ⟨"S", [32, 10], 1, 1⟩, raw := [32, 10], st := advance ⟨none, [32, 10, 97], 1, 1⟩ [32, 10] } :=
   classify_ws ⟨false, true⟩ rfl rfl _ 32 [10] [97] (by decide) (by decide) (by decide) rfl
+
+/-! ## numbers, percentages, dimensions (lexemes of any length) -/
+
+/-- obligation on the regenerated table: the first nine productions are two that cannot start with a
+digit or a dot, RATIO `(?<!\()\s*[0-9]+\s*/…`, three more that cannot start with a digit or a dot, then
+DIMENSION = number ident, PERCENTAGE = number `%`, NUMBER = `[+-]?[0-9]*\.[0-9]+|[+-]?[0-9]+` -/
+theorem gen_number_layout : ∃ kR X,
+    Gen.prods = (Gen.prods.take 2 ++ ⟨"RATIO", some 40, ratioRe kR⟩ :: (Gen.prods.drop 3).take 3) ++
+      ⟨"DIMENSION", none, .seq numRe (identRe X)⟩ :: ⟨"PERCENTAGE", none, .seq numRe pctR⟩ ::
+      ⟨"NUMBER", none, numRe⟩ :: Gen.prods.drop 9 ∧
+    (∀ c ∈ numStarts, (Gen.prods.take 2 ++ (Gen.prods.drop 3).take 3).all (fun q => !canStart q.re c) = true) :=
+  ⟨_, _, rfl, by decide⟩
+
+theorem gen_numStarts_not_fast : ∀ c ∈ numStarts, Gen.tables.fastChars.contains c = false := by decide
+theorem gen_num_escaped : Gen.tables.escTypes.contains "NUMBER" = false ∧
+    Gen.tables.escTypes.contains "PERCENTAGE" = false ∧ Gen.tables.escTypes.contains "DIMENSION" = true := by decide
+/-- both value rewrites (`\hex` and `\newline`) only fire at a backslash -/
+theorem gen_backslashOnly : backslashOnly Gen.tables = true := by decide
+
+theorem all_cannot_start (pre : List Prod) (c : Nat) (h : pre.all (fun q => !canStart q.re c) = true)
+    (prev : Option Nat) (s : Text) : ∀ q ∈ pre, matchProd q prev (c :: s) = none := by
+  intro q hq
+  have := List.all_eq_true.mp h q hq
+  exact matchProd_none_of_canStart q prev c s (by simpa using this)
+
+theorem numeric_prefix_none (kR : Re) (c : Nat) (s : Text) (prev : Option Nat)
+    (hall : (Gen.prods.take 2 ++ (Gen.prods.drop 3).take 3).all (fun q => !canStart q.re c) = true)
+    (hratio : NoRatio prev (c :: s)) :
+    ∀ q ∈ Gen.prods.take 2 ++ ⟨"RATIO", some 40, ratioRe kR⟩ :: (Gen.prods.drop 3).take 3,
+      matchProd q prev (c :: s) = none := by
+  intro q hq
+  have hcs := all_cannot_start _ c hall prev s
+  rcases List.mem_append.mp hq with h | h
+  · exact hcs q (List.mem_append_left _ h)
+  · rcases List.mem_cons.mp h with rfl | h
+    · rcases hratio with hp | hk
+      · simp [matchProd, hp]
+      · exact matchProd_none_of_ms_nil _ _ _ (hk kR)
+    · exact hcs q (List.mem_append_right _ h)
+
+/-- the productions before DIMENSION do not match an unsigned numeric text on which RATIO is off -/
+theorem unsigned_prefix (c : Nat) (s : Text) (prev : Option Nat) (hc : c ∈ numStarts)
+    (hratio : NoRatio prev (c :: s)) :
+    ∀ kR, ∀ q ∈ Gen.prods.take 2 ++ ⟨"RATIO", some 40, ratioRe kR⟩ :: (Gen.prods.drop 3).take 3,
+      matchProd q prev (c :: s) = none := by
+  obtain ⟨_, _, _, hall⟩ := gen_number_layout
+  exact fun kR => numeric_prefix_none kR c s prev (hall c hc) hratio
+
+/-- what `finish` does outside full-sheet mode for an escaped type (other than strings) on an
+escape-free match: the value is the match -/
+theorem finish_escfree (T : Tables) (hb : backslashOnly T = true) (cfg : Cfg) (hfs : cfg.fullsheet = false)
+    (hdc : cfg.doComments = true) (st : St) (n : String) (found rem : Text)
+    (h1 : T.escTypes.contains n = true) (h2 : (n == "STRING" || n == "INVALID") = false) (hnb : NoBs found) :
+    finish T cfg st n found rem =
+      { emit := some ⟨n, found, st.line, st.col⟩, raw := found, st := advance st found } := by
+  have h1' : n ∈ T.escTypes := by simpa using h1
+  have h2' : n ≠ "STRING" ∧ n ≠ "INVALID" := by simpa using h2
+  simp [finish, finishName, finishVal, hfs, hdc, h1', h2'.1, h2'.2, unicodeSub_id T hb found hnb]
+
+/-- the text after a number cannot continue it: it does not start with a digit, with `%` (PERCENTAGE)
+or like an identifier — `-`? then a name-start character (ASCII letter, `_`, non-ASCII; this includes the
+`e`/`E` of an exponent, which this tokenizer reads as a unit) or a backslash (DIMENSION) -/
+def numStop (rest : Text) : Bool :=
+  !identStart rest && (match rest with | d :: _ => !isDigit d && d != 37 | [] => true)
+
+/-- after optional whitespace the text does not continue with `/` -/
+def noSlash (rest : Text) : Bool := (rest.dropWhile isWs).head? != some 47
+
+theorem numStop_spec {rest : Text} (h : numStop rest = true) :
+    identStart rest = false ∧ (∀ d ∈ rest.head?, isDigit d = false) ∧ (∀ d ∈ rest.head?, (d == 37) = false) := by
+  simp only [numStop, Bool.and_eq_true, Bool.not_eq_true'] at h
+  refine ⟨h.1, ?_, ?_⟩ <;>
+  · intro d hd
+    cases rest with
+    | nil => cases hd
+    | cons x r =>
+      simp at hd; subst hd
+      have := h.2
+      simp only [Bool.and_eq_true, Bool.not_eq_true', bne_iff_ne, ne_eq] at this
+      simp [this.1, this.2]
+
+theorem noSlash_spec {rest : Text} (h : noSlash rest = true) :
+    ∀ d ∈ (rest.dropWhile isWsC).head?, (d == 47) = false := by
+  intro d hd
+  have heq : isWs = isWsC := rfl
+  have : (rest.dropWhile isWs).head? = some d := by rw [heq]; simpa using hd
+  simp only [noSlash, this, bne_iff_ne, ne_eq, Option.some.injEq] at h
+  simpa using h
+
+section
+variable (cfg : Cfg) (hfs : cfg.fullsheet = false) (hdc : cfg.doComments = true) (st : St)
+include hfs hdc
+
+/-- NUMBER, from the shape of the successes of the number expression -/
+theorem number_core (lex rest : Text) (c : Nat) (s : Text) (hcs : lex ++ rest = c :: s)
+    (hfast : Gen.tables.fastChars.contains c = false) (hr : st.rest = lex ++ rest)
+    (hres : NumRes (ms numRe (lex ++ rest)) rest)
+    (hpre : ∀ kR, ∀ q ∈ Gen.prods.take 2 ++ ⟨"RATIO", some 40, ratioRe kR⟩ :: (Gen.prods.drop 3).take 3,
+      matchProd q st.prev (c :: s) = none) (hid : identStart rest = false)
+    (hpct : ∀ d ∈ rest.head?, (d == 37) = false) :
+    step Gen.tables cfg st =
+      some { emit := some ⟨"NUMBER", lex, st.line, st.col⟩, raw := lex, st := advance st lex } := by
+  obtain ⟨kR, X, hlay, -⟩ := gen_number_layout
+  rw [hcs] at hres
+  have hpre0 := hpre kR
+  have hdim : matchProd ⟨"DIMENSION", none, .seq numRe (identRe X)⟩ st.prev (c :: s) = none :=
+    matchProd_none_of_ms_nil _ _ _ (num_then_nil (c :: s) rest hres (identRe X) (ident_nil X rest hid)
+      (fun x post hx => ident_nil X _ (identStart_digit_dot x post hx)))
+  have hpc : matchProd ⟨"PERCENTAGE", none, .seq numRe pctR⟩ st.prev (c :: s) = none :=
+    matchProd_none_of_ms_nil _ _ _ (num_then_nil (c :: s) rest hres pctR (test_pct.stop rest hpct)
+      (fun x post hx => test_pct.neg (by
+        simp only [isDigit, Bool.and_eq_true, decide_eq_true_eq] at hx
+        simp; omega) post))
+  have hm : matchProd ⟨"NUMBER", none, numRe⟩ st.prev (c :: s) = some rest :=
+    matchProd_some_of_head _ rfl _ _ _ hres.1
+  have hT : Gen.tables.prods = ((Gen.prods.take 2 ++ ⟨"RATIO", some 40, ratioRe kR⟩ :: (Gen.prods.drop 3).take 3) ++
+      [⟨"DIMENSION", none, .seq numRe (identRe X)⟩, ⟨"PERCENTAGE", none, .seq numRe pctR⟩]) ++
+      ⟨"NUMBER", none, numRe⟩ :: Gen.prods.drop 9 := by
+    show Gen.prods = _
+    rw [List.append_assoc]; exact hlay
+  have := step_of_prefix_none Gen.tables cfg hfs st c s (hr.trans hcs) hfast _ _ _ hT
+    (by
+      intro q hq
+      rcases List.mem_append.mp hq with h | h
+      · exact hpre0 q h
+      · simp only [List.mem_cons, List.not_mem_nil, or_false] at h
+        rcases h with rfl | rfl
+        · exact hdim
+        · exact hpc)
+    rest hm (Or.inl rfl)
+  rw [this, finish_plain Gen.tables cfg hfs hdc st "NUMBER" _ _ gen_num_escaped.1 (by decide)]
+  rw [← hcs, consumed_append_right]
+
+/-- PERCENTAGE -/
+theorem percentage_core (num rest : Text) (c : Nat) (s : Text) (hcs : num ++ 37 :: rest = c :: s)
+    (hfast : Gen.tables.fastChars.contains c = false) (hr : st.rest = num ++ 37 :: rest)
+    (hres : NumRes (ms numRe (num ++ 37 :: rest)) (37 :: rest))
+    (hpre : ∀ kR, ∀ q ∈ Gen.prods.take 2 ++ ⟨"RATIO", some 40, ratioRe kR⟩ :: (Gen.prods.drop 3).take 3,
+      matchProd q st.prev (c :: s) = none) :
+    step Gen.tables cfg st =
+      some { emit := some ⟨"PERCENTAGE", num ++ [37], st.line, st.col⟩, raw := num ++ [37],
+             st := advance st (num ++ [37]) } := by
+  obtain ⟨kR, X, hlay, -⟩ := gen_number_layout
+  rw [hcs] at hres
+  have hpre0 := hpre kR
+  have hdim : matchProd ⟨"DIMENSION", none, .seq numRe (identRe X)⟩ st.prev (c :: s) = none :=
+    matchProd_none_of_ms_nil _ _ _ (num_then_nil (c :: s) _ hres (identRe X)
+      (ident_nil X _ (by simp [identStart, nameStart, isNmStart]))
+      (fun x post hx => ident_nil X _ (identStart_digit_dot x post hx)))
+  have hm : matchProd ⟨"PERCENTAGE", none, .seq numRe pctR⟩ st.prev (c :: s) = some rest :=
+    matchProd_some_of_head _ rfl _ _ _ (num_then_head (c :: s) _ rest hres pctR (by
+      rw [test_pct.pos (by rfl)]; rfl))
+  have hT : Gen.tables.prods = ((Gen.prods.take 2 ++ ⟨"RATIO", some 40, ratioRe kR⟩ :: (Gen.prods.drop 3).take 3) ++
+      [⟨"DIMENSION", none, .seq numRe (identRe X)⟩]) ++ ⟨"PERCENTAGE", none, .seq numRe pctR⟩ ::
+      (⟨"NUMBER", none, numRe⟩ :: Gen.prods.drop 9) := by
+    show Gen.prods = _
+    rw [List.append_assoc]; exact hlay
+  have := step_of_prefix_none Gen.tables cfg hfs st c s (hr.trans hcs) hfast _ _ _ hT
+    (by
+      intro q hq
+      rcases List.mem_append.mp hq with h | h
+      · exact hpre0 q h
+      · simp only [List.mem_cons, List.not_mem_nil, or_false] at h
+        subst h
+        exact hdim)
+    rest hm (Or.inl rfl)
+  rw [this, finish_plain Gen.tables cfg hfs hdc st "PERCENTAGE" _ _ gen_num_escaped.2.1 (by decide)]
+  have : c :: s = (num ++ [37]) ++ rest := by rw [← hcs]; simp
+  rw [this, consumed_append_right]
+
+/-- DIMENSION with an escape-free unit -/
+theorem dimension_core (num : Text) (m : Bool) (u : Nat) (us rest : Text) (c : Nat) (s : Text)
+    (hnb : NoBs num) (hu : isNmStart u = true) (hus : ∀ x ∈ us, isNmChar x = true) (hrest : NameStop rest)
+    (hcs : num ++ (identLex m u us ++ rest) = c :: s)
+    (hfast : Gen.tables.fastChars.contains c = false) (hr : st.rest = num ++ (identLex m u us ++ rest))
+    (hres : NumRes (ms numRe (num ++ (identLex m u us ++ rest))) (identLex m u us ++ rest))
+    (hpre : ∀ kR, ∀ q ∈ Gen.prods.take 2 ++ ⟨"RATIO", some 40, ratioRe kR⟩ :: (Gen.prods.drop 3).take 3,
+      matchProd q st.prev (c :: s) = none) :
+    step Gen.tables cfg st =
+      some { emit := some ⟨"DIMENSION", num ++ identLex m u us, st.line, st.col⟩,
+             raw := num ++ identLex m u us, st := advance st (num ++ identLex m u us) } := by
+  obtain ⟨kR, X, hlay, -⟩ := gen_number_layout
+  rw [hcs] at hres
+  have hpre0 := hpre kR
+  have hm : matchProd ⟨"DIMENSION", none, .seq numRe (identRe X)⟩ st.prev (c :: s) = some rest :=
+    matchProd_some_of_head _ rfl _ _ _ (num_then_head (c :: s) _ rest hres (identRe X) (by
+      rw [ms_ident X m u us rest hu hus hrest]; exact backoffs_head us rest))
+  have := step_of_prefix_none Gen.tables cfg hfs st c s (hr.trans hcs) hfast _ _ _ hlay
+    hpre0 rest hm (Or.inl rfl)
+  have hfound : consumed (c :: s) rest = num ++ identLex m u us := by
+    have : c :: s = (num ++ identLex m u us) ++ rest := by rw [← hcs]; simp
+    rw [this, consumed_append_right]
+  rw [this, hfound, finish_escfree Gen.tables gen_backslashOnly cfg hfs hdc st "DIMENSION" _ _ gen_num_escaped.2.2
+    (by decide) (NoBs_append hnb (identLex_nobs m u us hu hus))]
+
+/-- **NUMBER.** An unsigned numeric lexeme `[0-9]+` or `[0-9]*\.[0-9]+` of any length, followed by any
+text that cannot continue it (`numStop`), is one NUMBER token whose value is the lexeme.  After an
+*integer* two more side conditions are needed, both read off the table: the text must not continue
+with `.digit` (the decimal alternative of the number expression is tried first and would match
+more), and RATIO `(?<!\()\s*[0-9]+\s*/\s*[0-9]+(?=\))`, which precedes NUMBER, must not apply — here:
+the previous character is `(` or the text after optional whitespace does not continue with `/`. -/
+theorem classify_number (num rest : Text) (hnum : NumLex num) (hstop : numStop rest = true)
+    (hint : 46 ∈ num ∨ (dotDigit rest = false ∧ (st.prev = some 40 ∨ noSlash rest = true)))
+    (hr : st.rest = num ++ rest) :
+    step Gen.tables cfg st =
+      some { emit := some ⟨"NUMBER", num, st.line, st.col⟩, raw := num, st := advance st num } := by
+  obtain ⟨hid, hdig, hpct⟩ := numStop_spec hstop
+  obtain ⟨c, s, hcs, hc⟩ := hnum.start rest
+  refine number_core cfg hfs hdc st num rest c s hcs (gen_numStarts_not_fast c hc) hr
+    (hnum.res rest hdig (hint.imp id And.left))
+    (unsigned_prefix c s st.prev hc (hcs ▸ hnum.noRatio rest st.prev hdig ?_)) hid hpct
+  rcases hint with h | ⟨_, h | h⟩
+  · exact Or.inl h
+  · exact Or.inr (Or.inl h)
+  · exact Or.inr (Or.inr (noSlash_spec h))
+
+/-- **PERCENTAGE.** A numeric lexeme followed by `%` is one PERCENTAGE token, whatever follows. -/
+theorem classify_percentage (num rest : Text) (hnum : NumLex num) (hr : st.rest = num ++ 37 :: rest) :
+    step Gen.tables cfg st =
+      some { emit := some ⟨"PERCENTAGE", num ++ [37], st.line, st.col⟩, raw := num ++ [37],
+             st := advance st (num ++ [37]) } := by
+  obtain ⟨c, s, hcs, hc⟩ := hnum.start (37 :: rest)
+  obtain ⟨hres, hratio⟩ := hnum.facts_of_head st.prev 37 rest (by decide) (by decide) (by decide) (by decide)
+  exact percentage_core cfg hfs hdc st num rest c s hcs (gen_numStarts_not_fast c hc) hr hres
+    (unsigned_prefix c s st.prev hc (hcs ▸ hratio))
+
+/-- **DIMENSION.** A numeric lexeme followed by an escape-free unit `-?{nmstart}{nmchar}*` and then any
+text that does not start with a name character or a backslash is one DIMENSION token. -/
+theorem classify_dimension (num : Text) (m : Bool) (u : Nat) (us rest : Text) (hnum : NumLex num)
+    (hu : isNmStart u = true) (hus : ∀ x ∈ us, isNmChar x = true) (hrest : NameStop rest)
+    (hr : st.rest = num ++ (identLex m u us ++ rest)) :
+    step Gen.tables cfg st =
+      some { emit := some ⟨"DIMENSION", num ++ identLex m u us, st.line, st.col⟩,
+             raw := num ++ identLex m u us, st := advance st (num ++ identLex m u us) } := by
+  obtain ⟨c, s, hcs, hc⟩ := hnum.start (identLex m u us ++ rest)
+  obtain ⟨x, post, hxp, h1, h2, h3, h4, _⟩ := identLex_head m u us rest hu
+  have := hnum.facts_of_head st.prev x post h1 h2 h3 h4
+  rw [← hxp] at this
+  exact dimension_core cfg hfs hdc st num m u us rest c s hnum.nobs hu hus hrest hcs
+    (gen_numStarts_not_fast c hc) hr this.1 (unsigned_prefix c s st.prev hc (hcs ▸ this.2))
+
+end
+
+/-- projection used in the examples: type and value of the token of one step -/
+def tokOf (r : Option Res) : Option (String × Text) := r.bind (fun r => r.emit.map (fun t => (t.typ, t.val)))
+
+/-! the side conditions of `classify_number` are needed (kernel-checked on the regenerated table) -/
+/-- `1` followed by `/2)` is not a NUMBER: RATIO takes `1/2` -/
+example : tokOf (step Gen.tables ⟨false, true⟩ ⟨none, [49, 47, 50, 41], 1, 1⟩) = some ("RATIO", [49, 47, 50]) := by decide
+/-- … unless the previous character is `(` -/
+example : tokOf (step Gen.tables ⟨false, true⟩ ⟨some 40, [49, 47, 50, 41], 1, 1⟩) = some ("NUMBER", [49]) := by decide
+/-- `1` followed by `.5` is the NUMBER `1.5` -/
+example : tokOf (step Gen.tables ⟨false, true⟩ ⟨none, [49, 46, 53], 1, 1⟩) = some ("NUMBER", [49, 46, 53]) := by decide
+/-- `1` followed by `e3` is a DIMENSION (no exponents in this grammar), `1` followed by `-x` too -/
+example : tokOf (step Gen.tables ⟨false, true⟩ ⟨none, [49, 101, 51], 1, 1⟩) = some ("DIMENSION", [49, 101, 51]) := by decide
+example : tokOf (step Gen.tables ⟨false, true⟩ ⟨none, [49, 45, 120], 1, 1⟩) = some ("DIMENSION", [49, 45, 120]) := by decide
+
+/-! non-vacuity: `12.5px;`, `12.5;`, `12 ;`, `.5%x`, `007` at the end of the text -/
+example : step Gen.tables ⟨false, true⟩ ⟨none, [49, 50, 46, 53, 112, 120, 59], 1, 1⟩ =
+    some { emit := some ⟨"DIMENSION", [49, 50, 46, 53, 112, 120], 1, 1⟩, raw := [49, 50, 46, 53, 112, 120],
+           st := advance ⟨none, [49, 50, 46, 53, 112, 120, 59], 1, 1⟩ [49, 50, 46, 53, 112, 120] } :=
+  classify_dimension ⟨false, true⟩ rfl rfl _ [49, 50, 46, 53] false 112 [120] [59]
+    (.dec [49, 50] 53 [] (by decide) (by decide) (by decide)) (by decide) (by decide) (by decide) rfl
+example : tokOf (step Gen.tables ⟨false, true⟩ ⟨none, [49, 50, 46, 53, 112, 120, 59], 1, 1⟩)
+    = some ("DIMENSION", [49, 50, 46, 53, 112, 120]) := by decide
+example : step Gen.tables ⟨false, true⟩ ⟨none, [49, 50, 46, 53, 59], 1, 1⟩ =
+    some { emit := some ⟨"NUMBER", [49, 50, 46, 53], 1, 1⟩, raw := [49, 50, 46, 53],
+           st := advance ⟨none, [49, 50, 46, 53, 59], 1, 1⟩ [49, 50, 46, 53] } :=
+  classify_number ⟨false, true⟩ rfl rfl _ [49, 50, 46, 53] [59]
+    (.dec [49, 50] 53 [] (by decide) (by decide) (by decide)) (by decide) (Or.inl (by decide)) rfl
+example : step Gen.tables ⟨false, true⟩ ⟨none, [49, 50, 32, 59], 1, 1⟩ =
+    some { emit := some ⟨"NUMBER", [49, 50], 1, 1⟩, raw := [49, 50],
+           st := advance ⟨none, [49, 50, 32, 59], 1, 1⟩ [49, 50] } :=
+  classify_number ⟨false, true⟩ rfl rfl _ [49, 50] [32, 59]
+    (.int 49 [50] (by decide) (by decide)) (by decide) (Or.inr ⟨by decide, Or.inr (by decide)⟩) rfl
+example : step Gen.tables ⟨false, true⟩ ⟨some 58, [48, 48, 55], 3, 9⟩ =
+    some { emit := some ⟨"NUMBER", [48, 48, 55], 3, 9⟩, raw := [48, 48, 55],
+           st := advance ⟨some 58, [48, 48, 55], 3, 9⟩ [48, 48, 55] } :=
+  classify_number ⟨false, true⟩ rfl rfl _ [48, 48, 55] []
+    (.int 48 [48, 55] (by decide) (by decide)) (by decide) (Or.inr ⟨by decide, Or.inr (by decide)⟩) rfl
+example : step Gen.tables ⟨false, true⟩ ⟨none, [46, 53, 37, 120], 1, 1⟩ =
+    some { emit := some ⟨"PERCENTAGE", [46, 53, 37], 1, 1⟩, raw := [46, 53, 37],
+           st := advance ⟨none, [46, 53, 37, 120], 1, 1⟩ [46, 53, 37] } :=
+  classify_percentage ⟨false, true⟩ rfl rfl _ [46, 53] [120]
+    (.dec [] 53 [] (by decide) (by decide) (by decide)) rfl
+
+/-! ## escape-free names: IDENT, FUNCTION, HASH, ATKEYWORD (lexemes of any length) -/
+
+/-- obligation on the regenerated table: the first six productions are S `{s}+`, URI `U R L \( …`
+(each letter an alternation of the two cases and backslash escapes), RATIO, UNICODE-RANGE `U \+ …`,
+IDENT `-?{nmstart}{nmchar}*` and FUNCTION `-?{nmstart}{nmchar}*\(` -/
+theorem gen_ident_layout : ∃ a b c kU kR a' kUR X,
+    Gen.prods = ⟨"S", none, sRe⟩ :: ⟨"URI", none, .seq a (.seq b (.seq c (.seq lparR kU)))⟩ ::
+      ⟨"RATIO", some 40, ratioRe kR⟩ :: ⟨"UNICODE-RANGE", none, .seq a' (.seq plusR kUR)⟩ ::
+      ⟨"IDENT", none, identRe X⟩ :: ⟨"FUNCTION", none, funcRe X⟩ :: Gen.prods.drop 6 ∧
+    letterOK a 85 117 = true ∧ letterOK b 82 114 = true ∧ letterOK c 76 108 = true ∧
+    letterOK a' 85 117 = true :=
+  ⟨_, _, _, _, _, _, _, _, rfl, by decide, by decide, by decide, by decide⟩
+
+theorem gen_fast_not_name : Gen.tables.fastChars.all (fun f => !isNmChar f) = true := by decide
+theorem gen_name_escaped : Gen.tables.escTypes.contains "IDENT" = true ∧
+    Gen.tables.escTypes.contains "FUNCTION" = true ∧ Gen.tables.escTypes.contains "HASH" = true ∧
+    Gen.tables.escTypes.contains "ATKEYWORD" = false := by decide
+
+theorem not_fast_of_nmchar {x : Nat} (h : isNmChar x = true) : Gen.tables.fastChars.contains x = false := by
+  cases hc : Gen.tables.fastChars.contains x with
+  | false => rfl
+  | true =>
+    have hm : x ∈ Gen.tables.fastChars := by simpa using hc
+    have := List.all_eq_true.mp gen_fast_not_name x hm
+    simp [h] at this
+
+/-- S, URI, RATIO and UNICODE-RANGE do not match an escape-free identifier followed by a non-name
+character, except `url(` and `u+` -/
+theorem name_prefix_none (a b c kU kR a' kUR : Re) (ha : letterOK a 85 117 = true)
+    (hb : letterOK b 82 114 = true) (hc : letterOK c 76 108 = true) (ha' : letterOK a' 85 117 = true)
+    (prev : Option Nat) (m : Bool) (u : Nat) (us rest : Text) (hu : isNmStart u = true)
+    (hus : ∀ x ∈ us, isNmChar x = true) (hrest : NameStop rest)
+    (hurl : lowerT (identLex m u us) = [117, 114, 108] → ∀ d ∈ rest.head?, (d == 40) = false)
+    (hplus : lowerT (identLex m u us) = [117] → ∀ d ∈ rest.head?, (d == 43) = false) :
+    ∀ q ∈ [(⟨"S", none, sRe⟩ : Prod), ⟨"URI", none, .seq a (.seq b (.seq c (.seq lparR kU)))⟩,
+        ⟨"RATIO", some 40, ratioRe kR⟩, ⟨"UNICODE-RANGE", none, .seq a' (.seq plusR kUR)⟩],
+      matchProd q prev (identLex m u us ++ rest) = none := by
+  obtain ⟨x, post, hxp, h1, _, _, h4, _⟩ := identLex_head m u us rest hu
+  have hrun := identLex_nmchars m u us hu hus
+  intro q hq
+  simp only [List.mem_cons, List.not_mem_nil, or_false] at hq
+  rcases hq with rfl | rfl | rfl | rfl
+  · apply matchProd_none_of_ms_nil
+    rw [hxp]
+    exact test_ws.seq_stop _ _ (by intro d hd; simp at hd; subst hd; exact h4)
+  · exact matchProd_none_of_ms_nil _ _ _ (uri_nil a b c kU ha hb hc _ rest hrun hrest hurl)
+  · apply matchProd_none_of_ms_nil
+    rw [hxp]
+    exact ratio_nil_of_not_digit kR _ (by intro d hd; simp at hd; subst hd; exact ⟨h1, h4⟩)
+  · exact matchProd_none_of_ms_nil _ _ _ (urange_nil a' kUR ha' _ rest hrun hrest hplus)
+
+/-- the text after an identifier cannot continue it and does not make it a FUNCTION: not a name
+character, not a backslash, not `(` -/
+def identStop : Text → Bool
+  | d :: _ => !isNmChar d && d != 92 && d != 40
+  | [] => true
+
+theorem identStop_spec {rest : Text} (h : identStop rest = true) :
+    NameStop rest ∧ (rest.head? == some 40) = false := by
+  cases rest with
+  | nil => exact ⟨(by intro d hd; cases hd), rfl⟩
+  | cons x r =>
+    simp only [identStop, Bool.and_eq_true, Bool.not_eq_true', bne_iff_ne, ne_eq] at h
+    refine ⟨?_, by simpa using h.2⟩
+    intro d hd
+    simp at hd; subst hd
+    exact ⟨h.1.1, h.1.2⟩
+
+/-- obligation on the regenerated table: HASH is `#{nmchar}+`, ATKEYWORD is `@-?{nmstart}{nmchar}*`, and
+no earlier production can start with `#` resp. `@` -/
+theorem gen_hash_at : ∃ X,
+    findProd Gen.tables.prods "HASH" = some ⟨"HASH", none, hashRe X⟩ ∧
+    findProd Gen.tables.prods "ATKEYWORD" = some ⟨"ATKEYWORD", none, atRe X⟩ ∧
+    earlierCannotStart Gen.tables "HASH" 35 = true ∧ earlierCannotStart Gen.tables "ATKEYWORD" 64 = true :=
+  ⟨_, rfl, rfl, by decide, by decide⟩
+
+theorem gen_simpleescapes_bs : startsWithBackslash Gen.tables.simpleescapes = true := by decide
+
+theorem normalize_nobs (T : Tables) (h : startsWithBackslash T.simpleescapes = true) (t : Text)
+    (hnb : NoBs t) : normalize T t = lowerT t := by
+  simp only [normalize, reSub_id _ h _ _ _ hnb]
+
+/-- what `finish` does for an escape-free at-keyword: known keywords get their own token type -/
+theorem finish_at (cfg : Cfg) (hfs : cfg.fullsheet = false) (hdc : cfg.doComments = true) (st : St)
+    (found rem : Text) (hnb : NoBs found)
+    (hcs : ¬ (found = atCharset ∧ hasAt (st.rest.drop found.length) [32] = true)) :
+    finish Gen.tables cfg st "ATKEYWORD" found rem =
+      { emit := some ⟨(lookupKw Gen.atkeywords (lowerT found)).getD "ATKEYWORD", found, st.line, st.col⟩,
+        raw := found, st := advance st found } := by
+  have hesc : ¬ "ATKEYWORD" ∈ Gen.tables.escTypes := by decide
+  have hnorm := normalize_nobs Gen.tables gen_simpleescapes_bs found hnb
+  have hT : Gen.tables.atkeywords = Gen.atkeywords := rfl
+  simp only [finish, finishName, hfs, Bool.false_eq_true, if_false, finishVal, List.contains_iff_mem, hesc,
+    beq_self_eq_true, if_true, unicodeSub_id Gen.tables gen_backslashOnly found hnb, hnorm, hT, hdc, Bool.true_or]
+  cases hl : lookupKw Gen.atkeywords (lowerT found) with
+  | some sym => simp
+  | none =>
+    have : (found == atCharset && hasAt (List.drop found.length st.rest) [32]) = false := by
+      cases h1 : (found == atCharset) with
+      | false => rfl
+      | true =>
+        cases h2 : hasAt (List.drop found.length st.rest) [32] with
+        | false => rfl
+        | true => exact absurd ⟨by simpa using h1, h2⟩ hcs
+    simp [this]
+
+section
+variable (cfg : Cfg) (hfs : cfg.fullsheet = false) (hdc : cfg.doComments = true) (st : St)
+include hfs hdc
+
+/-- **IDENT.** An escape-free identifier `-?{nmstart}{nmchar}*` of any length (name characters are
+ASCII letters, digits, `_`, `-` and every non-ASCII code point), followed by any text that does not
+start with a name character, a backslash or `(`, is one IDENT token whose value is the lexeme.  One
+more side condition is read off the table: the identifier `u`/`U` must not be followed by `+`
+(UNICODE-RANGE precedes IDENT). -/
+theorem classify_ident (m : Bool) (u : Nat) (us rest : Text) (hu : isNmStart u = true)
+    (hus : ∀ x ∈ us, isNmChar x = true) (hstop : identStop rest = true)
+    (hplus : lowerT (identLex m u us) = [117] → rest.head? ≠ some 43)
+    (hr : st.rest = identLex m u us ++ rest) :
+    step Gen.tables cfg st =
+      some { emit := some ⟨"IDENT", identLex m u us, st.line, st.col⟩, raw := identLex m u us,
+             st := advance st (identLex m u us) } := by
+  obtain ⟨a, b, c, kU, kR, a', kUR, X, hlay, ha, hb, hc, ha'⟩ := gen_ident_layout
+  obtain ⟨hrest, hpar⟩ := identStop_spec hstop
+  obtain ⟨x, post, hxp, -⟩ := identLex_head m u us rest hu
+  have hx : isNmChar x = true := identLex_nmchars m u us hu hus x (by
+    have : x ∈ identLex m u us ++ rest := by rw [hxp]; simp
+    rcases List.mem_append.mp this with h | h
+    · exact h
+    · cases m <;> simp [identLex] at hxp <;> simp [hxp.1, identLex])
+  have hpre := name_prefix_none a b c kU kR a' kUR ha hb hc ha' st.prev m u us rest hu hus hrest
+    (fun _ d hd => by
+      have : rest.head? = some d := by simpa using hd
+      rw [this] at hpar; simpa using hpar)
+    (fun h d hd => by
+      have : rest.head? = some d := by simpa using hd
+      have := hplus h
+      simp_all)
+  have hm : matchProd ⟨"IDENT", none, identRe X⟩ st.prev (identLex m u us ++ rest) = some rest :=
+    matchProd_some_of_head _ rfl _ _ _ (by rw [ms_ident X m u us rest hu hus hrest]; exact backoffs_head us rest)
+  rw [hxp] at hpre hm
+  have := step_of_prefix_none Gen.tables cfg hfs st x post (hr.trans hxp) (not_fast_of_nmchar hx)
+    [_, _, _, _] _ _ hlay hpre rest hm (Or.inr hpar)
+  rw [this, ← hxp, consumed_append_right,
+    finish_escfree Gen.tables gen_backslashOnly cfg hfs hdc st "IDENT" _ _ gen_name_escaped.1 (by decide)
+      (identLex_nobs m u us hu hus)]
+
+/-- **FUNCTION.** An escape-free identifier followed by `(` is one FUNCTION token (value: identifier
+and parenthesis), whatever follows — except for two names, both read off the tokenizer: `url` (any
+case; URI precedes FUNCTION and `url(` may start a URI) and `and` (any case; the tokenizer keeps
+`and` as an IDENT when `(` follows). -/
+theorem classify_function (m : Bool) (u : Nat) (us rest : Text) (hu : isNmStart u = true)
+    (hus : ∀ x ∈ us, isNmChar x = true)
+    (hurl : lowerT (identLex m u us) ≠ [117, 114, 108]) (hand : lowerT (identLex m u us) ≠ [97, 110, 100])
+    (hr : st.rest = identLex m u us ++ 40 :: rest) :
+    step Gen.tables cfg st =
+      some { emit := some ⟨"FUNCTION", identLex m u us ++ [40], st.line, st.col⟩,
+             raw := identLex m u us ++ [40], st := advance st (identLex m u us ++ [40]) } := by
+  obtain ⟨a, b, c, kU, kR, a', kUR, X, hlay, ha, hb, hc, ha'⟩ := gen_ident_layout
+  have hrest : NameStop (40 :: rest) := by intro d hd; simp at hd; subst hd; decide
+  obtain ⟨x, post, hxp, -⟩ := identLex_head m u us (40 :: rest) hu
+  have hx : isNmChar x = true := identLex_nmchars m u us hu hus x (by
+    cases m <;> simp [identLex] at hxp <;> simp [hxp.1, identLex])
+  have hpre := name_prefix_none a b c kU kR a' kUR ha hb hc ha' st.prev m u us (40 :: rest) hu hus hrest
+    (fun h => absurd h hurl) (fun _ d hd => by simp at hd; subst hd; rfl)
+  have hmi : matchProd ⟨"IDENT", none, identRe X⟩ st.prev (identLex m u us ++ 40 :: rest) = some (40 :: rest) :=
+    matchProd_some_of_head _ rfl _ _ _ (by
+      rw [ms_ident X m u us (40 :: rest) hu hus hrest]; exact backoffs_head us _)
+  have hm : matchProd ⟨"FUNCTION", none, funcRe X⟩ st.prev (identLex m u us ++ 40 :: rest) = some rest :=
+    matchProd_some_of_head _ rfl _ _ _ (by rw [ms_func X m u us rest hu hus]; rfl)
+  have hT : Gen.tables.prods = [⟨"S", none, sRe⟩, ⟨"URI", none, .seq a (.seq b (.seq c (.seq lparR kU)))⟩,
+      ⟨"RATIO", some 40, ratioRe kR⟩, ⟨"UNICODE-RANGE", none, .seq a' (.seq plusR kUR)⟩,
+      ⟨"IDENT", none, identRe X⟩] ++ ⟨"FUNCTION", none, funcRe X⟩ :: Gen.prods.drop 6 := hlay
+  have hskip : ∀ q ∈ [(⟨"S", none, sRe⟩ : Prod), ⟨"URI", none, .seq a (.seq b (.seq c (.seq lparR kU)))⟩,
+      ⟨"RATIO", some 40, ratioRe kR⟩, ⟨"UNICODE-RANGE", none, .seq a' (.seq plusR kUR)⟩,
+      ⟨"IDENT", none, identRe X⟩], Skipped st q := by
+    intro q hq
+    rw [show [(⟨"S", none, sRe⟩ : Prod), ⟨"URI", none, .seq a (.seq b (.seq c (.seq lparR kU)))⟩,
+      ⟨"RATIO", some 40, ratioRe kR⟩, ⟨"UNICODE-RANGE", none, .seq a' (.seq plusR kUR)⟩,
+      ⟨"IDENT", none, identRe X⟩] = [(⟨"S", none, sRe⟩ : Prod), ⟨"URI", none, .seq a (.seq b (.seq c (.seq lparR kU)))⟩,
+      ⟨"RATIO", some 40, ratioRe kR⟩, ⟨"UNICODE-RANGE", none, .seq a' (.seq plusR kUR)⟩] ++
+      [⟨"IDENT", none, identRe X⟩] from rfl] at hq
+    rcases List.mem_append.mp hq with h | h
+    · left; rw [hr]; exact hpre q h
+    · simp only [List.mem_cons, List.not_mem_nil, or_false] at h
+      subst h
+      right
+      refine ⟨40 :: rest, by rw [hr]; exact hmi, ?_⟩
+      rw [hr, consumed_append_right]
+      simp [hand]
+  rw [hxp] at hm
+  have := step_of_prefix_skip Gen.tables cfg hfs st x post (hr.trans hxp) (not_fast_of_nmchar hx)
+    _ _ _ hT hskip rest hm (Or.inl rfl)
+  have hfound : consumed (x :: post) rest = identLex m u us ++ [40] := by
+    have : x :: post = (identLex m u us ++ [40]) ++ rest := by rw [← hxp]; simp
+    rw [this, consumed_append_right]
+  rw [this, hfound,
+    finish_escfree Gen.tables gen_backslashOnly cfg hfs hdc st "FUNCTION" _ _ gen_name_escaped.2.1 (by decide)
+      (NoBs_append (identLex_nobs m u us hu hus) (by intro c hc; simp at hc; omega))]
+
+/-- **HASH.** `#` and a run of name characters (of any length, escape-free), followed by any text that
+does not start with a name character or a backslash, is one HASH token. -/
+theorem classify_hash (n : Nat) (ns rest : Text) (hn : isNmChar n = true)
+    (hns : ∀ x ∈ ns, isNmChar x = true) (hrest : NameStop rest)
+    (hr : st.rest = 35 :: n :: (ns ++ rest)) :
+    step Gen.tables cfg st =
+      some { emit := some ⟨"HASH", 35 :: n :: ns, st.line, st.col⟩, raw := 35 :: n :: ns,
+             st := advance st (35 :: n :: ns) } := by
+  obtain ⟨X, hfind, -, he, -⟩ := gen_hash_at
+  have hm : matchProd ⟨"HASH", none, hashRe X⟩ st.prev (35 :: n :: (ns ++ rest)) = some rest :=
+    matchProd_some_of_head _ rfl _ _ _ (by rw [ms_hash X n ns rest hn hns hrest]; exact backoffs_head ns rest)
+  have := step_classify' Gen.tables cfg hfs st 35 (n :: (ns ++ rest)) hr (by decide) "HASH" (by decide) he _ hfind
+    rest hm
+  have hfound : consumed (35 :: n :: (ns ++ rest)) rest = 35 :: n :: ns :=
+    consumed_append_right (35 :: n :: ns) rest
+  rw [this, hfound,
+    finish_escfree Gen.tables gen_backslashOnly cfg hfs hdc st "HASH" _ _ gen_name_escaped.2.2.1 (by decide)
+      (by
+        intro c hc
+        rcases List.mem_cons.mp hc with rfl | hc
+        · decide
+        · rcases List.mem_cons.mp hc with rfl | hc
+          · exact (nmchar_facts hn).1
+          · exact (nmchar_facts (hns c hc)).1)]
+
+/-- **ATKEYWORD.** `@` and an escape-free identifier, followed by any text that does not start with a
+name character or a backslash, is one token whose value is the lexeme and whose type is the keyword's
+own symbol (`IMPORT_SYM`, `MEDIA_SYM`, …, looked up case-insensitively in the regenerated keyword
+table) or `ATKEYWORD` for an unknown keyword.  Side condition read off the tokenizer: `@charset`
+(this exact spelling) followed by a space is the CHARSET_SYM token `@charset ` instead. -/
+theorem classify_atkeyword (m : Bool) (u : Nat) (us rest : Text) (hu : isNmStart u = true)
+    (hus : ∀ x ∈ us, isNmChar x = true) (hrest : NameStop rest)
+    (hcs : 64 :: identLex m u us = atCharset → rest.head? ≠ some 32)
+    (hr : st.rest = 64 :: (identLex m u us ++ rest)) :
+    step Gen.tables cfg st =
+      some { emit := some ⟨(lookupKw Gen.atkeywords (lowerT (64 :: identLex m u us))).getD "ATKEYWORD",
+                           64 :: identLex m u us, st.line, st.col⟩,
+             raw := 64 :: identLex m u us, st := advance st (64 :: identLex m u us) } := by
+  obtain ⟨X, -, hfind, -, he⟩ := gen_hash_at
+  have hm : matchProd ⟨"ATKEYWORD", none, atRe X⟩ st.prev (64 :: (identLex m u us ++ rest)) = some rest :=
+    matchProd_some_of_head _ rfl _ _ _ (by rw [ms_at X m u us rest hu hus hrest]; exact backoffs_head us rest)
+  have := step_classify' Gen.tables cfg hfs st 64 (identLex m u us ++ rest) hr (by decide) "ATKEYWORD" (by decide)
+    he _ hfind rest hm
+  have hfound : consumed (64 :: (identLex m u us ++ rest)) rest = 64 :: identLex m u us :=
+    consumed_append_right (64 :: identLex m u us) rest
+  rw [this, hfound]
+  apply congrArg some
+  apply finish_at cfg hfs hdc st
+  · intro c hc
+    rcases List.mem_cons.mp hc with rfl | hc
+    · decide
+    · exact identLex_nobs m u us hu hus c hc
+  · rintro ⟨h1, h2⟩
+    apply hcs h1
+    have : List.drop (64 :: identLex m u us).length st.rest = rest := by
+      rw [hr]
+      show List.drop ((64 :: identLex m u us).length) ((64 :: identLex m u us) ++ rest) = rest
+      simp
+    rw [this] at h2
+    cases rest with
+    | nil => simp [hasAt] at h2
+    | cons d r =>
+      have : 32 = d := by simpa [hasAt] using h2
+      simp [this]
+
+end
+
+/-! the side conditions of the name theorems are needed (kernel-checked on the regenerated table) -/
+/-- `u` followed by `+1` is a UNICODE-RANGE -/
+example : tokOf (step Gen.tables ⟨false, true⟩ ⟨none, [117, 43, 49], 1, 1⟩) = some ("UNICODE-RANGE", [117, 43, 49]) := by decide
+/-- an identifier followed by `(` is a FUNCTION, not an IDENT -/
+example : tokOf (step Gen.tables ⟨false, true⟩ ⟨none, [97, 40], 1, 1⟩) = some ("FUNCTION", [97, 40]) := by decide
+/-- … but `and(` is the IDENT `and`, and `url()` is a URI -/
+example : tokOf (step Gen.tables ⟨false, true⟩ ⟨none, [65, 110, 100, 40], 1, 1⟩) = some ("IDENT", [65, 110, 100]) := by decide
+example : tokOf (step Gen.tables ⟨false, true⟩ ⟨none, [117, 82, 108, 40, 41], 1, 1⟩) = some ("URI", [117, 82, 108, 40, 41]) := by decide
+/-- `@charset` followed by a space is CHARSET_SYM including the space -/
+example : tokOf (step Gen.tables ⟨false, true⟩ ⟨none, [64, 99, 104, 97, 114, 115, 101, 116, 32], 1, 1⟩)
+    = some ("CHARSET_SYM", [64, 99, 104, 97, 114, 115, 101, 116, 32]) := by decide
+
+/-! non-vacuity: `-moz-box;`, `été ` (non-ASCII), `u+` excluded but `u ` fine, `rgb(0`, `#fff;`, `@media `, `@foo{` -/
+example : step Gen.tables ⟨false, true⟩ ⟨none, [45, 109, 111, 122, 45, 98, 111, 120, 59], 1, 1⟩ =
+    some { emit := some ⟨"IDENT", [45, 109, 111, 122, 45, 98, 111, 120], 1, 1⟩, raw := [45, 109, 111, 122, 45, 98, 111, 120],
+           st := advance ⟨none, [45, 109, 111, 122, 45, 98, 111, 120, 59], 1, 1⟩ [45, 109, 111, 122, 45, 98, 111, 120] } :=
+  classify_ident ⟨false, true⟩ rfl rfl _ true 109 [111, 122, 45, 98, 111, 120] [59] (by decide) (by decide)
+    (by decide) (by decide) rfl
+example : step Gen.tables ⟨false, true⟩ ⟨some 32, [233, 116, 233, 32], 2, 5⟩ =
+    some { emit := some ⟨"IDENT", [233, 116, 233], 2, 5⟩, raw := [233, 116, 233],
+           st := advance ⟨some 32, [233, 116, 233, 32], 2, 5⟩ [233, 116, 233] } :=
+  classify_ident ⟨false, true⟩ rfl rfl _ false 233 [116, 233] [32] (by decide) (by decide)
+    (by decide) (by decide) rfl
+example : step Gen.tables ⟨false, true⟩ ⟨none, [117, 32], 1, 1⟩ =
+    some { emit := some ⟨"IDENT", [117], 1, 1⟩, raw := [117], st := advance ⟨none, [117, 32], 1, 1⟩ [117] } :=
+  classify_ident ⟨false, true⟩ rfl rfl _ false 117 [] [32] (by decide) (by decide) (by decide) (by decide) rfl
+example : step Gen.tables ⟨false, true⟩ ⟨none, [114, 103, 98, 40, 48], 1, 1⟩ =
+    some { emit := some ⟨"FUNCTION", [114, 103, 98, 40], 1, 1⟩, raw := [114, 103, 98, 40],
+           st := advance ⟨none, [114, 103, 98, 40, 48], 1, 1⟩ [114, 103, 98, 40] } :=
+  classify_function ⟨false, true⟩ rfl rfl _ false 114 [103, 98] [48] (by decide) (by decide) (by decide)
+    (by decide) rfl
+example : step Gen.tables ⟨false, true⟩ ⟨none, [35, 102, 102, 102, 59], 1, 1⟩ =
+    some { emit := some ⟨"HASH", [35, 102, 102, 102], 1, 1⟩, raw := [35, 102, 102, 102],
+           st := advance ⟨none, [35, 102, 102, 102, 59], 1, 1⟩ [35, 102, 102, 102] } :=
+  classify_hash ⟨false, true⟩ rfl rfl _ 102 [102, 102] [59] (by decide) (by decide) (by decide) rfl
+example : step Gen.tables ⟨false, true⟩ ⟨none, [64, 77, 101, 100, 105, 97, 32], 1, 1⟩ =
+    some { emit := some ⟨"MEDIA_SYM", [64, 77, 101, 100, 105, 97], 1, 1⟩, raw := [64, 77, 101, 100, 105, 97],
+           st := advance ⟨none, [64, 77, 101, 100, 105, 97, 32], 1, 1⟩ [64, 77, 101, 100, 105, 97] } :=
+  classify_atkeyword ⟨false, true⟩ rfl rfl _ false 77 [101, 100, 105, 97] [32] (by decide) (by decide)
+    (by decide) (by decide) rfl
+example : step Gen.tables ⟨false, true⟩ ⟨none, [64, 102, 111, 111, 123], 1, 1⟩ =
+    some { emit := some ⟨"ATKEYWORD", [64, 102, 111, 111], 1, 1⟩, raw := [64, 102, 111, 111],
+           st := advance ⟨none, [64, 102, 111, 111, 123], 1, 1⟩ [64, 102, 111, 111] } :=
+  classify_atkeyword ⟨false, true⟩ rfl rfl _ false 102 [111, 111] [123] (by decide) (by decide)
+    (by decide) (by decide) rfl
+
+/-! ## CDC -/
+
+/-- obligation on the regenerated table: before CDC `-->` there are four productions that cannot start
+with `-`, then IDENT and FUNCTION `-?{nmstart}…`, DIMENSION, PERCENTAGE, NUMBER (number expression
+first), then eleven productions that cannot start with `-` -/
+theorem gen_cdc_layout : ∃ X K1 K2 K3 K4,
+    Gen.prods = (Gen.prods.take 4 ++
+      [⟨"IDENT", none, .seq (.opt minusR) (.seq (nmstartRe X) K1)⟩,
+       ⟨"FUNCTION", none, .seq (.opt minusR) (.seq (nmstartRe X) K2)⟩,
+       ⟨"DIMENSION", none, .seq numRe K3⟩, ⟨"PERCENTAGE", none, .seq numRe K4⟩, ⟨"NUMBER", none, numRe⟩] ++
+      (Gen.prods.drop 9).take 11) ++
+      ⟨"CDC", none, .seq minusR (.seq minusR (.cls false [(62, 62)]))⟩ :: Gen.prods.drop 21 ∧
+    (Gen.prods.take 4 ++ (Gen.prods.drop 9).take 11).all (fun q => !canStart q.re 45) = true :=
+  ⟨_, _, _, _, _, rfl, by decide⟩
+
+theorem gen_CDC_not_escaped : Gen.tables.escTypes.contains "CDC" = false := by decide
+
+/-- **CDC.** `-->` is one CDC token, whatever follows. -/
+theorem classify_cdc (cfg : Cfg) (hfs : cfg.fullsheet = false) (hdc : cfg.doComments = true) (st : St)
+    (rest : Text) (hr : st.rest = 45 :: 45 :: 62 :: rest) :
+    step Gen.tables cfg st =
+      some { emit := some ⟨"CDC", [45, 45, 62], st.line, st.col⟩, raw := [45, 45, 62],
+             st := advance st [45, 45, 62] } := by
+  obtain ⟨X, K1, K2, K3, K4, hlay, hall⟩ := gen_cdc_layout
+  have hcs := all_cannot_start _ 45 hall st.prev (45 :: 62 :: rest)
+  have hid : identStart (45 :: 45 :: 62 :: rest) = false := by simp [identStart, nameStart, isNmStart]
+  have hnum : ms numRe (45 :: 45 :: 62 :: rest) = [] :=
+    num_nil_sign 45 _ (by decide) (by intro d hd; simp at hd; subst hd; exact ⟨rfl, rfl⟩)
+  have hm : matchProd ⟨"CDC", none, .seq minusR (.seq minusR (.cls false [(62, 62)]))⟩ st.prev
+      (45 :: 45 :: 62 :: rest) = some rest :=
+    matchProd_some_of_head _ rfl _ _ _ (by
+      rw [ms_seq_single _ _ _ _ (test_minus.pos (by rfl) _), ms_seq_single _ _ _ _ (test_minus.pos (by rfl) _),
+        (isTest_cls false [(62, 62)]).pos (by decide)]
+      rfl)
+  have := step_of_prefix_none Gen.tables cfg hfs st 45 (45 :: 62 :: rest) hr (by decide) _ _ _ hlay
+    (by
+      intro q hq
+      rcases List.mem_append.mp hq with h | h
+      · rcases List.mem_append.mp h with h | h
+        · exact hcs q (List.mem_append_left _ h)
+        · simp only [List.mem_cons, List.not_mem_nil, or_false] at h
+          rcases h with rfl | rfl | rfl | rfl | rfl
+          · exact matchProd_none_of_ms_nil _ _ _ (minus_nmstart_nil X K1 _ hid)
+          · exact matchProd_none_of_ms_nil _ _ _ (minus_nmstart_nil X K2 _ hid)
+          · exact matchProd_none_of_ms_nil _ _ _ (ms_seq_nil_left _ _ _ hnum)
+          · exact matchProd_none_of_ms_nil _ _ _ (ms_seq_nil_left _ _ _ hnum)
+          · exact matchProd_none_of_ms_nil _ _ _ hnum
+      · exact hcs q (List.mem_append_right _ h))
+    rest hm (Or.inl rfl)
+  rw [this, finish_plain Gen.tables cfg hfs hdc st "CDC" _ _ gen_CDC_not_escaped (by decide)]
+  have : consumed (45 :: 45 :: 62 :: rest) rest = [45, 45, 62] := consumed_append_right [45, 45, 62] rest
+  rw [this]
+
+example : step Gen.tables ⟨false, true⟩ ⟨none, [45, 45, 62, 45], 1, 1⟩ =
+    some { emit := some ⟨"CDC", [45, 45, 62], 1, 1⟩, raw := [45, 45, 62],
+           st := advance ⟨none, [45, 45, 62, 45], 1, 1⟩ [45, 45, 62] } :=
+  classify_cdc ⟨false, true⟩ rfl rfl _ [45] rfl
+
+/-! ## comments -/
+
+/-- obligation on the regenerated table: COMMENT is `\/\*[^*]*\*+([^/*][^*]*\*+)*\/`, no earlier
+production can start with `/`, and comment values go through the `\hex` rewrite like names -/
+theorem gen_comment :
+    findProd Gen.tables.prods "COMMENT" = some ⟨"COMMENT", none, commentRe⟩ ∧
+    earlierCannotStart Gen.tables "COMMENT" 47 = true ∧ Gen.tables.escTypes.contains "COMMENT" = true :=
+  ⟨rfl, by decide, by decide⟩
+
+/-- the comment lexeme with the given body -/
+def commentLex (body : Text) : Text := 47 :: 42 :: (body ++ [42, 47])
+
+/-- **COMMENT.** `/*`, a body of any length that does not contain `*/`, and `*/` is one COMMENT token,
+whatever follows.  Its raw text is the lexeme; its *value* is the lexeme after the tokenizer's `\hex`
+rewrite (COMMENT is among the escaped token types of the table), so it equals the lexeme when the
+body has no backslash (`classify_comment_plain`). -/
+theorem classify_comment (cfg : Cfg) (hfs : cfg.fullsheet = false) (hdc : cfg.doComments = true) (st : St)
+    (body rest : Text) (hbody : noClose body = true) (hr : st.rest = commentLex body ++ rest) :
+    step Gen.tables cfg st =
+      some { emit := some ⟨"COMMENT", unicodeSub Gen.tables (commentLex body), st.line, st.col⟩,
+             raw := commentLex body, st := advance st (commentLex body) } := by
+  obtain ⟨hfind, he, hesc⟩ := gen_comment
+  have hs : commentLex body ++ rest = 47 :: 42 :: (body ++ 42 :: 47 :: rest) := by simp [commentLex]
+  have hm : matchProd ⟨"COMMENT", none, commentRe⟩ st.prev (47 :: 42 :: (body ++ 42 :: 47 :: rest)) = some rest :=
+    matchProd_some_of_head _ rfl _ _ _ (by rw [ms_comment body rest hbody]; rfl)
+  have := step_classify' Gen.tables cfg hfs st 47 (42 :: (body ++ 42 :: 47 :: rest)) (hr.trans hs) (by decide)
+    "COMMENT" (by decide) he _ hfind rest hm
+  rw [this, ← hs, consumed_append_right]
+  have hesc' : "COMMENT" ∈ Gen.tables.escTypes := by simpa using hesc
+  simp [finish, finishName, finishVal, hfs, hdc, hesc']
+
+theorem classify_comment_plain (cfg : Cfg) (hfs : cfg.fullsheet = false) (hdc : cfg.doComments = true)
+    (st : St) (body rest : Text) (hbody : noClose body = true) (hnb : NoBs body)
+    (hr : st.rest = commentLex body ++ rest) :
+    step Gen.tables cfg st =
+      some { emit := some ⟨"COMMENT", commentLex body, st.line, st.col⟩,
+             raw := commentLex body, st := advance st (commentLex body) } := by
+  rw [classify_comment cfg hfs hdc st body rest hbody hr, unicodeSub_id Gen.tables gen_backslashOnly]
+  intro c hc
+  simp only [commentLex, List.mem_cons, List.mem_append, List.not_mem_nil, or_false] at hc
+  rcases hc with rfl | rfl | h | rfl | rfl
+  · decide
+  · decide
+  · exact hnb c h
+  · decide
+  · decide
+
+/-- the value of a comment is rewritten: `/*\41 */` has value `/*A*/` -/
+example : tokOf (step Gen.tables ⟨false, true⟩ ⟨none, [47, 42, 92, 52, 49, 32, 42, 47], 1, 1⟩)
+    = some ("COMMENT", [47, 42, 65, 42, 47]) := by decide
+/-- a body containing `*/` ends the comment early -/
+example : tokOf (step Gen.tables ⟨false, true⟩ ⟨none, [47, 42, 42, 47, 42, 47], 1, 1⟩)
+    = some ("COMMENT", [47, 42, 42, 47]) := by decide
+
+/-! non-vacuity: `/* a**b/ **/x` and the empty comment `/**/` -/
+example : step Gen.tables ⟨false, true⟩ ⟨none, [47, 42, 32, 97, 42, 42, 98, 47, 32, 42, 42, 47, 120], 1, 1⟩ =
+    some { emit := some ⟨"COMMENT", [47, 42, 32, 97, 42, 42, 98, 47, 32, 42, 42, 47], 1, 1⟩,
+           raw := [47, 42, 32, 97, 42, 42, 98, 47, 32, 42, 42, 47],
+           st := advance ⟨none, [47, 42, 32, 97, 42, 42, 98, 47, 32, 42, 42, 47, 120], 1, 1⟩
+             [47, 42, 32, 97, 42, 42, 98, 47, 32, 42, 42, 47] } :=
+  classify_comment_plain ⟨false, true⟩ rfl rfl _ [32, 97, 42, 42, 98, 47, 32, 42] [120] (by decide) (by decide) rfl
+example : step Gen.tables ⟨false, true⟩ ⟨none, [47, 42, 42, 47], 1, 1⟩ =
+    some { emit := some ⟨"COMMENT", [47, 42, 42, 47], 1, 1⟩, raw := [47, 42, 42, 47],
+           st := advance ⟨none, [47, 42, 42, 47], 1, 1⟩ [47, 42, 42, 47] } :=
+  classify_comment_plain ⟨false, true⟩ rfl rfl _ [] [] (by decide) (by decide) rfl
+
+/-! ## escape-free strings -/
+
+/-- obligation on the regenerated table: STRING is `"([^\n\r\f\\"]|\…)*"|'([^\n\r\f\\']|\…)*'`, it is the
+first production that can start with a quote, and string values are rewritten only at backslashes -/
+theorem gen_string : ∃ A B,
+    findProd Gen.tables.prods "STRING" = some ⟨"STRING", none, stringRe A B⟩ ∧
+    earlierCannotStart Gen.tables "STRING" 34 = true ∧ earlierCannotStart Gen.tables "STRING" 39 = true ∧
+    Gen.tables.escTypes.contains "STRING" = true :=
+  ⟨_, _, rfl, by decide, by decide, by decide⟩
+
+/-- **STRING.** A quote (`"` or `'`), a body of any length without newline characters (`\n`, `\r`,
+`\f`), backslash or that quote, and the same quote again, is one STRING token whose value is the
+lexeme, whatever follows. -/
+theorem classify_string (cfg : Cfg) (hfs : cfg.fullsheet = false) (hdc : cfg.doComments = true) (st : St)
+    (q : Nat) (hq : q = 34 ∨ q = 39) (body rest : Text) (hbody : ∀ c ∈ body, isStrChar q c = true)
+    (hr : st.rest = q :: (body ++ q :: rest)) :
+    step Gen.tables cfg st =
+      some { emit := some ⟨"STRING", q :: (body ++ [q]), st.line, st.col⟩, raw := q :: (body ++ [q]),
+             st := advance st (q :: (body ++ [q])) } := by
+  obtain ⟨A, B, hfind, he34, he39, hesc⟩ := gen_string
+  have hm : matchProd ⟨"STRING", none, stringRe A B⟩ st.prev (q :: (body ++ q :: rest)) = some rest := by
+    apply matchProd_some_of_head _ rfl
+    rcases hq with rfl | rfl
+    · rw [ms_string_dq A B body rest hbody]; rfl
+    · rw [ms_string_sq A B body rest hbody]; rfl
+  have hfast : Gen.tables.fastChars.contains q = false := by rcases hq with rfl | rfl <;> decide
+  have he : earlierCannotStart Gen.tables "STRING" q = true := by rcases hq with rfl | rfl <;> assumption
+  have := step_classify' Gen.tables cfg hfs st q (body ++ q :: rest) hr hfast "STRING" (by decide) he _ hfind
+    rest hm
+  have hfound : consumed (q :: (body ++ q :: rest)) rest = q :: (body ++ [q]) := by
+    have : q :: (body ++ q :: rest) = (q :: (body ++ [q])) ++ rest := by simp
+    rw [this, consumed_append_right]
+  have hnb : NoBs (q :: (body ++ [q])) := by
+    have hq92 : q ≠ 92 := by rcases hq with rfl | rfl <;> decide
+    intro c hc
+    simp only [List.mem_cons, List.mem_append, List.not_mem_nil, or_false] at hc
+    rcases hc with rfl | h | rfl
+    · exact hq92
+    · have := hbody c h
+      simp only [isStrChar, Bool.and_eq_true, bne_iff_ne, ne_eq] at this
+      exact this.1.2
+    · exact hq92
+  have hesc' : "STRING" ∈ Gen.tables.escTypes := by simpa using hesc
+  rw [this, hfound]
+  simp [finish, finishName, finishVal, hfs, hdc, hesc', unicodeSub_id Gen.tables gen_backslashOnly _ hnb,
+    cleanString_id Gen.tables gen_backslashOnly _ hnb]
+
+/-! non-vacuity: `"a 'b'";` and the empty string `''` -/
+example : step Gen.tables ⟨false, true⟩ ⟨none, [34, 97, 32, 39, 98, 39, 34, 59], 1, 1⟩ =
+    some { emit := some ⟨"STRING", [34, 97, 32, 39, 98, 39, 34], 1, 1⟩, raw := [34, 97, 32, 39, 98, 39, 34],
+           st := advance ⟨none, [34, 97, 32, 39, 98, 39, 34, 59], 1, 1⟩ [34, 97, 32, 39, 98, 39, 34] } :=
+  classify_string ⟨false, true⟩ rfl rfl _ 34 (Or.inl rfl) [97, 32, 39, 98, 39] [59] (by decide) rfl
+example : step Gen.tables ⟨false, true⟩ ⟨none, [39, 39], 1, 1⟩ =
+    some { emit := some ⟨"STRING", [39, 39], 1, 1⟩, raw := [39, 39],
+           st := advance ⟨none, [39, 39], 1, 1⟩ [39, 39] } :=
+  classify_string ⟨false, true⟩ rfl rfl _ 39 (Or.inr rfl) [] [] (by decide) rfl
+/-- a newline in the body makes it an INVALID token instead -/
+example : tokOf (step Gen.tables ⟨false, true⟩ ⟨none, [34, 97, 10, 34], 1, 1⟩) = some ("INVALID", [34, 97]) := by decide
+
+/-! ## CDO -/
+
+/-- **CDO.** `<!--` is one CDO token, whatever follows (the production is the four-character literal and
+nothing earlier can start with `<`: both re-checked on the regenerated table). -/
+theorem classify_cdo (cfg : Cfg) (hfs : cfg.fullsheet = false) (hdc : cfg.doComments = true) (st : St)
+    (rest : Text) (hr : st.rest = 60 :: 33 :: 45 :: 45 :: rest) :
+    step Gen.tables cfg st =
+      some { emit := some ⟨"CDO", [60, 33, 45, 45], st.line, st.col⟩, raw := [60, 33, 45, 45],
+             st := advance st [60, 33, 45, 45] } := by
+  have hfind : findProd Gen.tables.prods "CDO" = some ⟨"CDO", none,
+      .seq (.cls false [(60, 60)]) (.seq (.cls false [(33, 33)]) (.seq (.cls false [(45, 45)]) (.cls false [(45, 45)])))⟩ := rfl
+  have hm : matchProd ⟨"CDO", none,
+      .seq (.cls false [(60, 60)]) (.seq (.cls false [(33, 33)]) (.seq (.cls false [(45, 45)]) (.cls false [(45, 45)])))⟩
+      st.prev (60 :: 33 :: 45 :: 45 :: rest) = some rest :=
+    matchProd_some_of_head _ rfl _ _ _ (by simp [ms, clsMatch, inRanges])
+  have := step_classify' Gen.tables cfg hfs st 60 (33 :: 45 :: 45 :: rest) hr (by decide) "CDO" (by decide)
+    (by decide) _ hfind rest hm
+  rw [this, finish_plain Gen.tables cfg hfs hdc st "CDO" _ _ (by decide) (by decide)]
+  have : consumed (60 :: 33 :: 45 :: 45 :: rest) rest = [60, 33, 45, 45] :=
+    consumed_append_right [60, 33, 45, 45] rest
+  rw [this]
+
+/-! ## signed numbers, percentages, dimensions -/
+
+/-- obligation on the regenerated table: productions 4–6 are one that cannot start with a sign, then
+IDENT and FUNCTION `-?{nmstart}…`; the first two productions cannot start with a sign either; signs are
+not on the fast path -/
+theorem gen_signed_layout : ∃ ur X K1 K2,
+    (Gen.prods.drop 3).take 3 = [ur, ⟨"IDENT", none, .seq (.opt minusR) (.seq (nmstartRe X) K1)⟩,
+      ⟨"FUNCTION", none, .seq (.opt minusR) (.seq (nmstartRe X) K2)⟩] ∧
+    (∀ x ∈ [43, 45], (ur :: Gen.prods.take 2).all (fun q => !canStart q.re x) = true) ∧
+    (∀ x ∈ [43, 45], Gen.tables.fastChars.contains x = false) :=
+  ⟨_, _, _, _, rfl, by decide, by decide⟩
+
+theorem sign_mem {x : Nat} (hx : isSign x = true) : x ∈ [43, 45] := by
+  simp only [isSign, Bool.or_eq_true, decide_eq_true_eq] at hx
+  simp; omega
+
+/-- the productions before DIMENSION do not match a signed numeric text -/
+theorem signed_prefix (x : Nat) (hx : isSign x = true) (num t : Text) (hnum : NumLex num)
+    (prev : Option Nat) :
+    ∀ kR, ∀ q ∈ Gen.prods.take 2 ++ ⟨"RATIO", some 40, ratioRe kR⟩ :: (Gen.prods.drop 3).take 3,
+      matchProd q prev (x :: (num ++ t)) = none := by
+  obtain ⟨ur, X, K1, K2, hmid, hall, -⟩ := gen_signed_layout
+  have hcs := all_cannot_start _ x (hall x (sign_mem hx)) prev (num ++ t)
+  have hid := identStart_sign_num hnum x hx t
+  intro kR q hq
+  rw [hmid] at hq
+  rcases List.mem_append.mp hq with h | h
+  · exact hcs q (List.mem_cons_of_mem _ h)
+  · simp only [List.mem_cons, List.not_mem_nil, or_false] at h
+    rcases h with rfl | rfl | rfl | rfl
+    · apply matchProd_none_of_ms_nil
+      apply ratio_nil_of_not_digit
+      intro d hd
+      simp at hd; subst hd
+      simp only [isSign, Bool.or_eq_true, decide_eq_true_eq] at hx
+      simp [isDigit, isWsC]; omega
+    · exact hcs _ List.mem_cons_self
+    · exact matchProd_none_of_ms_nil _ _ _ (minus_nmstart_nil X K1 _ hid)
+    · exact matchProd_none_of_ms_nil _ _ _ (minus_nmstart_nil X K2 _ hid)
+
+section
+variable (cfg : Cfg) (hfs : cfg.fullsheet = false) (hdc : cfg.doComments = true) (st : St)
+include hfs hdc
+
+/-- **NUMBER with a sign.** `+` or `-`, then an unsigned numeric lexeme, followed by a text that cannot
+continue it, is one NUMBER token.  RATIO cannot start at a sign, so after an integer only the
+`.digit` condition remains. -/
+theorem classify_number_signed (x : Nat) (hx : isSign x = true) (num rest : Text) (hnum : NumLex num)
+    (hstop : numStop rest = true) (hint : 46 ∈ num ∨ dotDigit rest = false)
+    (hr : st.rest = x :: (num ++ rest)) :
+    step Gen.tables cfg st =
+      some { emit := some ⟨"NUMBER", x :: num, st.line, st.col⟩, raw := x :: num,
+             st := advance st (x :: num) } := by
+  obtain ⟨hid, hdig, hpct⟩ := numStop_spec hstop
+  obtain ⟨_, _, _, _, _, _, hfast⟩ := gen_signed_layout
+  exact number_core cfg hfs hdc st (x :: num) rest x (num ++ rest) rfl (hfast x (sign_mem hx)) hr
+    (hnum.res_signed x hx rest hdig hint) (signed_prefix x hx num rest hnum st.prev) hid hpct
+
+/-- **PERCENTAGE with a sign.** -/
+theorem classify_percentage_signed (x : Nat) (hx : isSign x = true) (num rest : Text) (hnum : NumLex num)
+    (hr : st.rest = x :: (num ++ 37 :: rest)) :
+    step Gen.tables cfg st =
+      some { emit := some ⟨"PERCENTAGE", x :: (num ++ [37]), st.line, st.col⟩, raw := x :: (num ++ [37]),
+             st := advance st (x :: (num ++ [37])) } := by
+  obtain ⟨_, _, _, _, _, _, hfast⟩ := gen_signed_layout
+  exact percentage_core cfg hfs hdc st (x :: num) rest x (num ++ 37 :: rest) rfl (hfast x (sign_mem hx)) hr
+    (hnum.res_signed_of_head x hx 37 rest (by decide) (by decide))
+    (signed_prefix x hx num (37 :: rest) hnum st.prev)
+
+/-- **DIMENSION with a sign.** -/
+theorem classify_dimension_signed (x : Nat) (hx : isSign x = true) (num : Text) (m : Bool) (u : Nat)
+    (us rest : Text) (hnum : NumLex num) (hu : isNmStart u = true) (hus : ∀ y ∈ us, isNmChar y = true)
+    (hrest : NameStop rest) (hr : st.rest = x :: (num ++ (identLex m u us ++ rest))) :
+    step Gen.tables cfg st =
+      some { emit := some ⟨"DIMENSION", x :: (num ++ identLex m u us), st.line, st.col⟩,
+             raw := x :: (num ++ identLex m u us), st := advance st (x :: (num ++ identLex m u us)) } := by
+  obtain ⟨_, _, _, _, _, _, hfast⟩ := gen_signed_layout
+  obtain ⟨y, post, hyp, h1, h2, -⟩ := identLex_head m u us rest hu
+  have hres := hnum.res_signed_of_head x hx y post h1 h2
+  rw [← hyp] at hres
+  have hnb : NoBs (x :: num) := by
+    intro c hc
+    rcases List.mem_cons.mp hc with rfl | hc
+    · simp only [isSign, Bool.or_eq_true, decide_eq_true_eq] at hx; omega
+    · exact hnum.nobs c hc
+  exact dimension_core cfg hfs hdc st (x :: num) m u us rest x (num ++ (identLex m u us ++ rest)) hnb hu hus
+    hrest rfl (hfast x (sign_mem hx)) hr hres (signed_prefix x hx num _ hnum st.prev)
+
+end
+
+/-! non-vacuity: `-0.5em}`, `+10%`, `-3 ` -/
+example : step Gen.tables ⟨false, true⟩ ⟨some 58, [45, 48, 46, 53, 101, 109, 125], 1, 1⟩ =
+    some { emit := some ⟨"DIMENSION", [45, 48, 46, 53, 101, 109], 1, 1⟩, raw := [45, 48, 46, 53, 101, 109],
+           st := advance ⟨some 58, [45, 48, 46, 53, 101, 109, 125], 1, 1⟩ [45, 48, 46, 53, 101, 109] } :=
+  classify_dimension_signed ⟨false, true⟩ rfl rfl _ 45 (by decide) [48, 46, 53] false 101 [109] [125]
+    (.dec [48] 53 [] (by decide) (by decide) (by decide)) (by decide) (by decide) (by decide) rfl
+example : step Gen.tables ⟨false, true⟩ ⟨none, [43, 49, 48, 37], 1, 1⟩ =
+    some { emit := some ⟨"PERCENTAGE", [43, 49, 48, 37], 1, 1⟩, raw := [43, 49, 48, 37],
+           st := advance ⟨none, [43, 49, 48, 37], 1, 1⟩ [43, 49, 48, 37] } :=
+  classify_percentage_signed ⟨false, true⟩ rfl rfl _ 43 (by decide) [49, 48] []
+    (.int 49 [48] (by decide) (by decide)) rfl
+example : step Gen.tables ⟨false, true⟩ ⟨none, [45, 51, 32], 1, 1⟩ =
+    some { emit := some ⟨"NUMBER", [45, 51], 1, 1⟩, raw := [45, 51],
+           st := advance ⟨none, [45, 51, 32], 1, 1⟩ [45, 51] } :=
+  classify_number_signed ⟨false, true⟩ rfl rfl _ 45 (by decide) [51] [32]
+    (.int 51 [] (by decide) (by decide)) (by decide) (Or.inr (by decide)) rfl
+/-- a signed integer before `/2)` is a NUMBER (RATIO has no sign) -/
+example : tokOf (step Gen.tables ⟨false, true⟩ ⟨none, [45, 49, 47, 50, 41], 1, 1⟩) = some ("NUMBER", [45, 49]) := by decide
 
 end CssVerif.C09
